@@ -252,7 +252,7 @@ def process_fn(asm, header_line, block, tmpl_line):
             rest = s[len('//@sub'):].strip()
             r, rest = rest.split(None, 1)
             strs, skv, _ = _parse_strs(rest)
-            subs.append((r, strs[0], strs[1], int(skv.get('n', 1))))
+            subs.append((r, strs[0], strs[1], -1 if skv.get('n') == 'all' else int(skv.get('n', 1))))   # n=all: every occurrence, at least one
             i += 1
         elif s.startswith('//@lift'):
             strs, lkv, _ = _parse_strs(s[len('//@lift'):])
@@ -358,6 +358,8 @@ def process_fn(asm, header_line, block, tmpl_line):
     for (r, old, new, n) in subs:
         hits = _word_hits(body, old)
         c = len(hits)
+        if n == -1 and c >= 1:
+            n = c
         if c != n:
             if asm.degrade and c == 0:
                 asm.degraded.append('%s::%s: substitution %s %r not applied (text no longer present)' % (container, name, r, old))
